@@ -178,6 +178,16 @@ func (s *Service) createAttestations(_ context.Context,
 				Msg("No signature for validator; not creating attestation")
 			continue
 		}
+		if committeeSizes[i] > s.maxValidatorsPerCommittee {
+			// The duty carries a committee size that cannot be valid; creating aggregation bits for it could
+			// attempt to allocate an arbitrary amount of memory.
+			s.log.Warn().
+				Str("validator_pubkey", fmt.Sprintf("%#x", accounts[i].PublicKey().Marshal())).
+				Uint64("committee_size", committeeSizes[i]).
+				Uint64("max_committee_size", s.maxValidatorsPerCommittee).
+				Msg("Committee size larger than maximum; not creating attestation")
+			continue
+		}
 		aggregationBits := bitfield.NewBitlist(committeeSizes[i])
 		aggregationBits.SetBitAt(uint64(validatorCommitteeIndices[i]), true)
 		attestation := &phase0.Attestation{
